@@ -391,6 +391,25 @@ def install(eng):
             return SNum(nm.NHASH(Struct.tup(x.seq)))
         return hash0(e, x)
 
+    def tuple_comp(e, it, node, env, mod, clsctx):
+        """(f(a) for a in <result tuple>) with f the identity on nodes"""
+        import ast
+        from pyvc.interp import Env
+        g = node.generators[0]
+        if len(node.generators) != 1 or g.ifs or not isinstance(
+                node, (ast.GeneratorExp, ast.ListComp)):
+            return NotImplemented
+        x = nm.lazy_node(e, cur(), cur().fresh_name('elem'))
+        cenv = Env(env, env.func if env is not None else None)
+        e.assign(g.target, x, cenv, mod, clsctx)
+        if e.eval(node.elt, cenv, mod, clsctx) is not x:
+            raise Unsupported('comprehension over a result list with an '
+                              'element expression that is not the identity '
+                              'on nodes')
+        return ResMapped(it)
+
+    eng.comp_handlers[ResTuple] = tuple_comp
+
     zip0 = eng.native_handlers[_hkey(zip)]
     any0 = eng.native_handlers[_hkey(any)]
 
